@@ -36,7 +36,7 @@ def _load(pid):
             if _expected_undetected(os.path.dirname(d)):
                 ent["kind"] = "gap"       # a confirmed breaking change that the structural rules do not decide (recorded, never counted as detected)
             out.append(ent)
-    for k in range(1, 21):
+    for k in range(1, 61):
         d = os.path.join(SEEDED, "twins", "%s-T%d.diff" % (pid.upper(), k))
         if os.path.isfile(d):
             out.append({"id": "twin-%s-T%d" % (pid.upper(), k), "kind": "twin", "diff": d, "what": "independently written behaviour-preserving edit (seeded/twins)"})
